@@ -51,6 +51,7 @@ func TestProp(t *testing.T) {
 		kit.Clause[sparseCase]{Name: "C17/sparse/cholesky", Quick: 12000, Thorough: 160000, Gen: func(t *rapid.T) sparseCase { return genSparse(t, 60) }, Check: checkSparse},
 		kit.Clause[cgCase]{Name: "C17/sparse/bicgstab", Quick: 8000, Thorough: 100000, Gen: genCG, Check: checkCG, Budget: 30e9},
 		kit.Clause[polyCase]{Name: "C17/poly/real-roots", Quick: 60000, Thorough: 1000000, Gen: genPoly, Check: checkPoly, Budget: 30e9},
+		kit.Clause[quadCase]{Name: "C17/poly/scale-separated-roots", Quick: 10000, Thorough: 300000, Gen: genQuad, Check: checkQuad, Budget: 30e9},
 		kit.Clause[optCase]{Name: "C17/opt/gss", Quick: 20000, Thorough: 240000, Gen: func(t *rapid.T) optCase {
 			return genOpt(t, []string{"gss", "gss-unimodal"})
 		}, Check: checkOpt},
